@@ -845,3 +845,170 @@ def binarizer_vs_preconverted(scn):
         if not T.same(ra, rb, 0.0):
             return "step %d (%s): with binarizer %r, with pre-converted rewards %r" % (i, op["op"], ra, rb)
     return None
+
+
+# ------------------------------------------------------------------ C08 outputs over exactly the current arms
+
+def gen_c08(seed, index):
+    prof = {"name": "C08", "lp": ALL_LP, "np": [None, None] + G.NP_KINDS,
+            "weights": {"fit": 1, "pfit": 2, "query": 4, "add": 2.5, "rem": 2, "warm": 0.7, "swap": 1.5},
+            "query_sizes": [1, 2, 3, 5, 7], "n_ops": (5, 12)}
+    rng, g = _gen(seed, index, prof)
+    scn = g.build()
+    scn["cfg"]["n_jobs"] = rng.choice([1, 1, 2, 3])
+    if scn["cfg"]["n_jobs"] > 1:
+        scn["cfg"]["backend"] = "threading"
+    return scn
+
+
+@twin("outputs_over_arms")
+@T.quiet
+def outputs_over_arms(scn):
+    """after every step: arms as expected; predict is a current arm; predict_expectations has exactly the
+    current arms as keys in arm-list order; m > 1 rows give a list of m results, otherwise a single result"""
+    T.register_labels(scn)
+    a = S.make_mab(scn["cfg"])
+    expected = T.canon(list(scn["cfg"]["arms"]))
+    for i, op in enumerate(scn["ops"]):
+        res = T.apply_op(a, op)
+        if res[0] == "ok":
+            if op["op"] == "add":
+                expected = expected + [T.canon(op["arm"])]
+            elif op["op"] == "rem":
+                expected = [x for x in expected if x != T.canon(op["arm"])]
+        arms = T.canon(list(a.arms))
+        if arms != expected:
+            return "step %d (%s): arms are %r, expected %r" % (i, op["op"], arms, expected)
+        if op["op"] not in ("pexp", "pred") or res[0] != "ok":
+            continue
+        m = None if op["c"] is None else len(op["c"])
+        out = res[1]
+        if op["op"] == "pred":
+            if m is not None and m > 1:
+                if not isinstance(out, list) or len(out) != m:
+                    return "step %d: predict with %d rows returned %r" % (i, m, out)
+                items = out
+            else:
+                if isinstance(out, list):
+                    return "step %d: predict with %r rows returned a list %r" % (i, m, out)
+                items = [out]
+            for x in items:
+                if x not in arms:
+                    return "step %d: predicted %r is not a current arm %r" % (i, x, arms)
+        else:
+            if m is not None and m > 1:
+                if not (isinstance(out, list) and len(out) == m and all(isinstance(d, list) and d and isinstance(d[0], tuple) for d in out)):
+                    return "step %d: predict_expectations with %d rows returned %d results" % (i, m, len(out) if isinstance(out, list) else -1)
+                items = out
+            else:
+                if not (isinstance(out, list) and out and isinstance(out[0], tuple)):
+                    return "step %d: predict_expectations with %r rows did not return a single mapping: %r" % (i, m, out)
+                items = [out]
+            for d in items:
+                if [k for k, _ in d] != arms:
+                    return "step %d: keys of predict_expectations %r differ from the current arms %r" % (i, [k for k, _ in d], arms)
+    return None
+
+
+# ------------------------------------------------------------------ C02 linear policies = per-arm ridge regression
+
+def gen_c02(seed, index):
+    prof = {"name": "C02", "lp": G.LIN_KINDS, "np": [None], "dims": [1, 1, 2, 3],
+            "weights": {"fit": 1, "pfit": 3, "query": 0, "add": 1.5, "rem": 0.5, "warm": 0},
+            "query_sizes": [1, 1, 2, 3, 5], "n_ops": (1, 6), "end_query": False, "unknown_labels": False}
+    rng, g = _gen(seed, index, prof)
+    lp = g.cfg["lp"]
+    if lp["k"] == "lingreedy":
+        lp["eps"] = 0.0
+    if lp["k"] == "lints":
+        lp["alpha"] = 1e-9
+    scale = rng.random() < 0.25
+    if scale:
+        lp["scale"] = True
+        # single fit (running standardisation is excluded by the property)
+        g.op_train("fit")
+        if rng.random() < 0.5:
+            g.op_add()
+        scn = {"cfg": g.cfg, "ops": g.ops}
+    else:
+        scn = g.build()
+    g.ops = []
+    for _ in range(rng.randint(1, 3)):
+        g.op_query("pexp")
+    scn["queries"] = g.ops
+    return scn
+
+
+def _ridge_oracle(cfg, arms, d, r, c, query):
+    """expectations from numpy.linalg.solve on the per-arm normal equations built from the raw history;
+    returns (values, unobserved arms)"""
+    lp = cfg["lp"]
+    lam = lp["lam"]
+    X = np.asarray(c, dtype=float)
+    y = np.asarray(r, dtype=float)
+    dec = [T.canon(x) for x in d]
+    q = np.asarray(query, dtype=float)
+    dim = q.shape[1]
+    out = []
+    unobserved = []
+    for arm in arms:
+        ca = T.canon(arm)
+        idx = [i for i in range(len(dec)) if dec[i] == ca]
+        qq = q
+        if idx:
+            Xa = X[idx]
+            ya = y[idx]
+            if lp.get("scale"):
+                mean = Xa.mean(axis=0)
+                std = Xa.std(axis=0)
+                std = np.where(std <= 1e-6, 1.0, std)
+                Xa = (Xa - mean) / std
+                qq = (q - mean) / std
+            A = Xa.T @ Xa + lam * np.eye(dim)
+            beta = np.linalg.solve(A, Xa.T @ ya)
+            Ainv = np.linalg.inv(A)
+        else:
+            unobserved.append(ca)
+            beta = np.zeros(dim)
+            Ainv = np.eye(dim) / lam
+        val = qq @ beta
+        if lp["k"] == "linucb":
+            val = val + lp["alpha"] * np.sqrt(np.einsum("ij,jk,ik->i", qq, Ainv, qq))
+        out.append((ca, [float(v) for v in val]))
+    return out, unobserved
+
+
+@twin("linear_vs_normal_equations")
+@T.quiet
+def linear_vs_normal_equations(scn):
+    cfg = scn["cfg"]
+    T.register_labels(scn)
+    a = S.make_mab(cfg)
+    T.apply_ops(a, scn["ops"])
+    if not a._is_initial_fit:
+        return None
+    d, r, c = _train_rows(scn, purge_on_remove=True)   # a re-added arm starts from an empty log
+    arms = list(a.arms)
+    tol = 1e-6 if cfg["lp"]["k"] == "lints" else 1e-8
+    for q in scn["queries"]:
+        b = copy.deepcopy(a)
+        res = T.apply_op(b, q)
+        if res[0] != "ok":
+            return "query raised %r" % (res,)
+        rows = res[1] if len(q["c"]) > 1 else [res[1]]
+        oracle, unobserved = _ridge_oracle(cfg, arms, d, r, c, q["c"])
+        for i, got in enumerate(rows):
+            if [k for k, _ in got] != [k for k, _ in oracle]:
+                return "row %d: keys %r vs arms %r" % (i, [k for k, _ in got], [k for k, _ in oracle])
+            for (arm, v), (_, ov) in zip(got, oracle):
+                scale = max(1.0, abs(ov[i]))
+                if abs(v - ov[i]) > tol * scale:
+                    return "row %d (x=%r) arm %r%s: library %r, ridge regression on the raw history %r" % (
+                        i, q["c"][i], arm, " [never observed]" if arm in unobserved else "", v, ov[i])
+    return None
+
+
+def is_k1(scn, reason):
+    """known finding K1: never-observed arm, l2_lambda != 1, LinUCB bonus"""
+    lp = scn["cfg"]["lp"]
+    return lp["k"] == "linucb" and lp["lam"] != 1.0 and lp["alpha"] > 0 and "[never observed]" in (reason or "")
